@@ -94,6 +94,14 @@ def check_valid(case):
             continue
         try:
             wspec = GS.Spec(__import__("json").loads(__import__("json").dumps(base if ignore else spec)))
+            for n in case.get("omitted") or []:
+                # a supplied type the document does not define only becomes part of the schema when something refers to it
+                used = any(GS.named(GS.parse_t(f["type"])) == n or any(GS.named(GS.parse_t(a["type"])) == n for a in f.get("args") or [])
+                           for t in wspec["types"].values() for f in t.get("fields") or [])
+                used = used or any(GS.named(GS.parse_t(a["type"])) == n for d in wspec.get("directives", []) for a in d.get("args") or [])
+                if not used:
+                    del wspec["types"][n]
+                    wspec["order"] = [x for x in wspec["order"] if x != n]
             base_names = {n: {v["name"] for v in base["types"][n]["values"]} for n in case.get("additional") or [] if base["types"][n]["kind"] == "enum"}
             for n, names in base_names.items():
                 for v in wspec["types"][n]["values"]:
@@ -153,11 +161,19 @@ def check_invalid(label, text):
 @st.composite
 def cases(draw):
     spec = H.sdl_view(draw(GS.specs(rich=True, with_subscription=draw(st.integers(0, 3)) == 0)))
-    sp = draw(SP.split_sdl(spec, allow_empty_base=draw(st.integers(0, 5)) == 0))
+    def referenced(n):
+        for t in spec["types"].values():
+            for f in t.get("fields") or []:
+                if GS.named(GS.parse_t(f["type"])) == n or any(GS.named(GS.parse_t(a["type"])) == n for a in f.get("args") or []):
+                    return True
+        return False
+    # custom scalars the document uses without defining them: the implementation comes from additional_types only
+    omit = [n for n in spec["order"] if spec["types"][n]["kind"] == "scalar" and referenced(n) and draw(st.integers(0, 2)) == 0]
+    sp = draw(SP.split_sdl(spec, allow_empty_base=draw(st.integers(0, 5)) == 0, omit=omit))
     cands = [n for n in spec["order"] if spec["types"][n]["kind"] in ("scalar", "enum")]
-    additional = [n for n in cands if draw(st.integers(0, 3)) == 0]
+    additional = [n for n in cands if n in omit or draw(st.integers(0, 3)) == 0]
     inv = draw(SP.invalid_sdl(spec))
-    return {"text": sp["text"], "merged": sp["merged"], "base": sp["base"], "n_ext": sp["n_ext"], "additional": additional,
+    return {"text": sp["text"], "merged": sp["merged"], "base": sp["base"], "n_ext": sp["n_ext"], "additional": additional, "omitted": omit,
             "ignore_options": [False] + ([True] if draw(st.integers(0, 2)) == 0 else []), "invalid": list(inv) if inv else None}
 
 
